@@ -108,14 +108,20 @@ class _ShmSink(RawIOBase):
 
     Inherits from ``RawIOBase`` to satisfy ``new_ipc_stream()`` type
     requirements.
+
+    Writes never go past *limit* (the end of the allocation): a write that
+    would cross it is dropped and ``overflowed`` is set, so the caller can
+    release the region and fall back to the inline path.
     """
 
-    def __init__(self, buf: memoryview, start: int) -> None:
-        """Initialize targeting *buf* starting at byte offset *start*."""
+    def __init__(self, buf: memoryview, start: int, limit: int) -> None:
+        """Initialize targeting *buf* from byte offset *start* up to (excluding) *limit*."""
         super().__init__()
         self._buf = buf
         self._pos = start
         self._start = start
+        self._limit = limit
+        self.overflowed = False
 
     def write(self, data: bytes | bytearray | memoryview | pa.Buffer) -> int:  # type: ignore[override]  # ty: ignore[invalid-method-override]
         """Write *data* into the shared memory region."""
@@ -126,6 +132,11 @@ class _ShmSink(RawIOBase):
         else:
             mv = memoryview(data).cast("B") if data.format != "B" else data
         n = len(mv)
+        if self.overflowed or self._pos + n > self._limit:
+            # Never write outside the allocation; report success so the
+            # Arrow writer finishes, the caller checks ``overflowed``.
+            self.overflowed = True
+            return n
         self._buf[self._pos : self._pos + n] = mv
         self._pos += n
         return n
@@ -436,10 +447,16 @@ class ShmSegment:
             offset = self._allocator.allocate(estimated)
             if offset is None:
                 return None
-            sink = _ShmSink(shm_buf, offset)
+            sink = _ShmSink(shm_buf, offset, offset + estimated)
             writer = new_ipc_stream(sink, batch.schema)
             writer.write_batch(batch)
             writer.close()
+            if sink.overflowed:
+                # The stream is larger than the estimate (wide schema, large
+                # schema metadata, nested dictionaries): release the region
+                # and let the caller send the batch inline.
+                self._allocator.free(offset)
+                return None
             return offset, sink.bytes_written
 
         # Dict path: serialize to buffer, then copy
